@@ -711,6 +711,51 @@ def r3_7(ctx):
     ctx.count('masked_literal_tests', n_sites)
 
 
+def r3_8(ctx):
+    """case-insensitive matching folds through the library's tables: in the regexp
+    executors, code that runs under a test of RE_FLAGS_NO_CASE compares through
+    yr_lowercase[] / yr_altercase[] (on both sides of an equality), or hands the flag to the
+    class matcher, which does.  A bit trick such as `| 0x20` is a case fold for letters only:
+    it equates '-' with CR, '@' with '`', NUL with space."""
+    prog = ctx.prog
+    NOCASE = prog.macro_value('RE_FLAGS_NO_CASE')
+    ctx.require(NOCASE is not None or ctx.fixture, 'RE_FLAGS_NO_CASE not evaluable')
+    n = 0
+    for f in prog.fns():
+        if f.file != 'libyara/re.c' and not ctx.fixture:
+            continue
+
+        def tests_nocase(c):
+            return any(x['k'] == 'bin' and x['op'] == '&' and
+                       cu.const_of(cu.strip_casts(f, f.kid(x, 1))) == NOCASE and
+                       (cu.strip_casts(f, f.kid(x, 1)).get('mn') == 'RE_FLAGS_NO_CASE')
+                       for x in f.walk(c))
+        for node in f.all_nodes():
+            if node['k'] != 'if' or not tests_nocase(f.kid(node, 0)):
+                continue
+            n += 1
+            then = f.kid(node, 1)
+            tables = [x for x in f.walk(then) if x['k'] == 'sub' and
+                      cu.strip_casts(f, f.kid(x, 0)) is not None and
+                      cu.strip_casts(f, f.kid(x, 0)).get('name') in ('yr_lowercase', 'yr_altercase')]
+            cmps = [x for x in f.walk(then) if x['k'] == 'bin' and x['op'] in ('==', '!=')]
+            ok = bool(tables)
+            for c in cmps:
+                sides = [cu.strip_casts(f, y) for y in f.kids(c)]
+                folded = [y is not None and y['k'] == 'sub' and
+                          cu.strip_casts(f, f.kid(y, 0)) is not None and
+                          cu.strip_casts(f, f.kid(y, 0)).get('name') in ('yr_lowercase', 'yr_altercase')
+                          for y in sides]
+                if any(folded) and not all(folded):
+                    ok = False
+            ctx.ob('R3.8', '%s:nocase#%d:folds-through-table' % (f.name, n), ok, f.loc(node),
+                   'the case-insensitive branch compares through the folding table on both sides' if ok else
+                   'the branch taken for RE_FLAGS_NO_CASE does not compare through yr_lowercase[] / '
+                   'yr_altercase[] on both sides: bytes that are not letters are treated as equal to '
+                   'unrelated bytes')
+    ctx.count('nocase_branches', n)
+
+
 def run(ctx):
     r3_1(ctx)
     ctx.floor('R3.1', 60)
@@ -726,3 +771,5 @@ def run(ctx):
     ctx.floor('R3.6', 2)
     r3_7(ctx)
     ctx.floor('R3.7', 1)
+    r3_8(ctx)
+    ctx.floor('R3.8', 1)
